@@ -570,16 +570,33 @@ fn run_case(case: &Case) -> Result<Outcome, Failure> {
     let via = case.via % 5;
     let outcome = if via == 4 {
         // router: the callback drops the message undecoded
+        struct Guard(crossbeam_channel::Sender<()>);
+        impl Drop for Guard {
+            fn drop(&mut self) {
+                let _ = self.0.send(());
+            }
+        }
         let (done_tx, done_rx) = crossbeam_channel::unbounded::<()>();
+        let (gone_tx, gone_rx) = crossbeam_channel::unbounded::<()>();
+        let guard = Guard(gone_tx);
         ROUTER.add_route(
             rx.to_opaque(),
             Box::new(move |m| {
+                let _ = &guard;
                 drop(m);
                 let _ = done_tx.send(());
             }),
         );
         match done_rx.recv_timeout(std::time::Duration::from_secs(sandbox::watchdog_secs())) {
-            Ok(()) => Ok(Outcome16::Dropped),
+            Ok(()) => {
+                // the only sender of the routed channel is gone already: the router closes the
+                // route's descriptor and then drops the handler (guard) - wait for that, so that the
+                // descriptor baseline is judged on a settled state
+                if gone_rx.recv_timeout(std::time::Duration::from_secs(sandbox::watchdog_secs())).is_err() {
+                    return Err(Failure::inconclusive("the router did not drop the route of a closed channel in time"));
+                }
+                Ok(Outcome16::Dropped)
+            },
             Err(_) => {
                 let p = crate::take_panics();
                 if p.is_empty() {
